@@ -2,6 +2,7 @@ package main
 
 import (
 	"fmt"
+	"go/types"
 	"strings"
 
 	"golang.org/x/tools/go/ssa"
@@ -11,7 +12,7 @@ func init() {
 	register(&PropDef{
 		ID:          "C18",
 		Level:       "other",
-		Explanation: "Byte fidelity and shell semantics are trusted; decided are merge order, wiring, isolation and the reserved name: ORDER — the environment handed to CompileTask is runnerEnv.Merge(contextEnv).With(\"TASK_NAME\", task name).Merge(taskEnv) and the variables are runnerVars.Merge(taskVars); in the loaded upstream source Merge applies the argument after the receiver (argument wins) and With merges then sets; in the executor the process environment (os.Environ at construction) precedes the job environment in the list given to expand.ListEnviron (later entries win) and the script is rendered with the job's own variables; WIRING — runner env ← the job's Env (task-runner factory), task env ← the task definition's Env, executor base ← os.Environ(); PER JOB — initScheduler creates one task runner and one scheduler per call, the per-stage variable container is created inside the stage loop, and the module has no package-level variable holding a container, runner or scheduler; RESERVED NAME — every Set of a job-supplied variable name is reachable only over the `name != reserved` edge whose other edge returns an error, and the reserved variable is set from the job's own id.",
+		Explanation: "Byte fidelity and shell semantics are trusted; decided are merge order, wiring, isolation and the reserved name: ORDER — the environment handed to CompileTask is runnerEnv.Merge(contextEnv).With(\"TASK_NAME\", task name).Merge(taskEnv) and the variables are runnerVars.Merge(taskVars); in the loaded upstream source Merge applies the argument after the receiver (argument wins) and With merges then sets; in the executor the process environment (os.Environ at construction) precedes the job environment in the list given to expand.ListEnviron (later entries win) and the script is rendered with the job's own variables; WIRING — runner env ← the job's Env (task-runner factory), task env ← the task definition's Env, executor base ← os.Environ(); PER JOB — initScheduler creates one task runner and one scheduler per call, the per-stage variable container is created inside the stage loop, and the module has no package-level variable holding a container, runner or scheduler; RESERVED NAME — every Set of a job-supplied variable name is reachable only over the `name != reserved` edge whose other edge returns an error, and the reserved variable is set from the job's own id. EXEC ENV — the environment list handed to started processes appends name=value exactly for exported string variables and always continues the iteration.",
 		Trusted:     []string{"mvdan/sh expand.ListEnviron: later entries override earlier ones", "upstream utils.ConvertEnv / RenderString", "exec passes the environment byte-for-byte"},
 		NotDecided:  []string{"byte fidelity of values", "shell quoting semantics"},
 		Check:       checkC18,
@@ -71,6 +72,68 @@ func checkC18(w *World, r *Report) {
 		r.Check(okList, "order.executor-env", FuncName(ex)+": process env then job env", w.Pos(ex.Pos()), "ListEnviron(append(process env, job env...)): the job's values override the process's", "the interpreter environment is "+desc+": expected the executor's base (process) environment first and the job's environment appended after it")
 		r.Check(okRender, "order.script-render", FuncName(ex)+": script rendered with the job's own variables", w.Pos(ex.Pos()), "RenderString(job.Command, job.Vars.Map())", "the command is not rendered with its own job's variables")
 		// the interpreter env is assigned from that list on the executor's interpreter
+	}
+	// ---- the environment handed to the started process: every exported string variable of the
+	// interpreter's environment, as name=value (and nothing is filtered out on another condition)
+	// (the builder is whatever function of package taskctl hands a func(name, expand.Variable) bool closure to Environ.Each)
+	var eachClosures []*ssa.Function
+	for _, fn := range w.ModFuncs {
+		if fn.Package() != w.Pkg("taskctl") && (fn.Parent() == nil || fn.Parent().Package() != w.Pkg("taskctl")) {
+			continue
+		}
+		if fn.Parent() == nil || fn.Signature.Params().Len() != 2 || fn.Signature.Results().Len() != 1 {
+			continue
+		}
+		if fn.Signature.Params().At(0).Type().String() == "string" && strings.HasSuffix(fn.Signature.Params().At(1).Type().String(), "expand.Variable") && fn.Signature.Results().At(0).Type().String() == "bool" {
+			eachClosures = append(eachClosures, fn)
+		}
+	}
+	if len(eachClosures) > 0 {
+		fe := eachClosures[0].Parent()
+		strKind := "1"
+		for _, p := range w.Prog.AllPackages() {
+			if p.Pkg.Path() == "mvdan.cc/sh/v3/expand" {
+				if c, ok := p.Pkg.Scope().Lookup("String").(*types.Const); ok {
+					strKind = c.Val().ExactString()
+				}
+			}
+		}
+		okF, nApp, nPaths := len(eachClosures) == 1, 0, 0
+		detail := ""
+		for _, cl := range eachClosures {
+			nameAP, varAP := w.AP(cl.Params[0]), w.AP(cl.Params[1])
+			for _, p := range w.EnumPaths(cl, EnumOpts{MaxPaths: 200}).Paths {
+				if p.End != "return" {
+					continue
+				}
+				nPaths++
+				exported, isString := false, false
+				for _, l := range p.Lits {
+					if l.Atom.Op == "true" && strings.HasSuffix(l.Atom.L, ".Exported") {
+						exported = l.Val
+					}
+					if l.Atom.Op == "==" && strings.HasSuffix(l.Atom.L, ".Kind") && l.Atom.R == strKind {
+						isString = l.Val
+					}
+				}
+				appended := false
+				for _, e := range p.Effects {
+					if e.Kind == "call" && e.Target == "append" && strings.Contains(e.Val, "[(("+nameAP+" + \"=\") + (mvdan.cc/sh/v3/expand.Variable).String("+varAP+"))]") {
+						appended = true
+					}
+				}
+				if appended {
+					nApp++
+				}
+				if appended != (exported && isString) || len(p.Ret) != 1 || p.Ret[0] != "true" {
+					okF = false
+					detail = fmt.Sprintf("exported=%v string=%v → appended=%v, continues=%v", exported, isString, appended, len(p.Ret) == 1 && p.Ret[0] == "true")
+				}
+			}
+		}
+		r.Check(okF && nApp > 0 && nPaths > 1, "order.exec-env-filter", FuncName(fe)+": environment of the started process", w.Pos(fe.Pos()), "name=value is appended exactly for the exported string variables, and the iteration always continues", "the environment handed to started processes is not 'every exported string variable as name=value' ("+detail+"): commands started by a task do not see the job's variables (the shell still expands them, so scripts that only echo them look fine)")
+	} else {
+		r.Undecided("order.exec-env-filter", "taskctl: process environment builder", "-", "no closure of package taskctl iterates the interpreter's environment")
 	}
 	// the executor constructor: the function of package taskctl that builds the interpreter
 	if np := w.FuncByRole("taskctl", "NewPgidExecutor", func(f *ssa.Function) bool { return f.Parent() == nil && callsNamed(f, "interp.New") }); np != nil {
